@@ -529,6 +529,15 @@ SAME_KIND = [
 ]
 
 
+SAME_KIND.append(
+    # number-formatting stages (a process-wide cache of compiled format strings sits behind all of them)
+    [lambda r: ["put", r.choice(["$f1 = fmtnum($x, \"%.2f\")", "$f2 = fmtnum($i, \"%08d\")", "$f3 = fmtifnum($b, \"%.1f\") . fmtnum($i, \"%x\")", "$f4 = fmtnum($x, \"%.\" . ($i % 7) . \"f\")",
+                                 "$f5 = fmtnum($i, \"%0\" . ($i % 5 + 1) . \"d\")", "$f6 = hexfmt($i) . fmtnum($y, \"%.3e\")", "$f7 = fmtnum($i * 1.5, \"%d\")", "$f8 = fmtifnum($*, \"%.4f\")[\"x\"]"])],
+     lambda r: ["format-values", "-n", "-f", r.choice(["%.3f", "%.5lf", "%08.3f"])], lambda r: ["format-values", "-i", r.choice(["%08llx", "%d"])],
+     lambda r: ["sec2gmt", "-" + str(r.randint(1, 9)), "i"], lambda r: ["fraction", "-f", "i"], lambda r: ["merge-fields", "-a", "mean,var", "-f", "x,y", "-o", "xy"],
+     lambda r: ["step", "-a", "ewma", "-d", "0.1,0.9", "-f", "x"], lambda r: ["stats1", "-a", "mean,p50", "-f", "x,y"]])
+
+
 def race_cases(rng, tier):
     """Chains of 2-4 stages of the same kind (grouping verbs; DSL / regex / formatting stages), small batches, and
     schedules that preempt goroutines at loop heads: unsynchronised state shared between verb goroutines shows as
